@@ -242,12 +242,14 @@ def run_case(ctx, kind_, idx):
                 # again after a write / extension (stale caches), writes must be visible in every later view
                 a = arr(rng, 2, 40).astype(float)
                 n = int(rng.integers(1, 9))
-                ia = IntervalArray(a.copy(), n)
+                src = a.copy()
+                ia = IntervalArray(src, n)            # wraps without copying: the caller keeps write access
                 sh = [float(v) for v in a]
                 steps = []
                 info.update({"len": len(a), "n": n, "steps": steps})
                 for _ in range(int(rng.integers(3, 9))):
-                    op = ["view", "closed", "write", "write_flat", "extend_lin", "extend_const", "read", "len"][int(rng.integers(0, 8))]
+                    op = ["view", "closed", "write", "write_flat", "extend_lin", "extend_const", "read", "len",
+                          "write_via_array_property", "write_via_wrapped_ndarray", "write_via_second_view"][int(rng.integers(0, 11))]
                     steps.append(op)
                     mag = max(abs(v) for v in sh) + 1.0
                     if op == "view":
@@ -268,6 +270,18 @@ def run_case(ctx, kind_, idx):
                         flat = int(rng.integers(0, len(sh)))
                         v = float(rng.normal(0, 5))
                         ia[flat] = v
+                        sh[flat] = v
+                    elif op.startswith("write_via"):
+                        flat = int(rng.integers(0, len(sh)))
+                        v = float(rng.normal(0, 5))
+                        if op == "write_via_array_property":
+                            ia.array[flat] = v
+                        elif op == "write_via_wrapped_ndarray":
+                            if ia.array is not src:
+                                continue
+                            src[flat] = v
+                        else:
+                            IntervalArray(ia.array, max(1, n - 1))[flat] = v
                         sh[flat] = v
                     elif op in ("extend_lin", "extend_const"):
                         if len(sh) < n + 1 or len(sh) > 200:
